@@ -58,6 +58,7 @@ var (
 	outMu    sync.Mutex
 	evals    atomic.Int64
 	nontriv  atomic.Int64
+	aborted  atomic.Int64
 )
 
 func emit(v any) {
@@ -262,6 +263,16 @@ func run(c *Case) {
 			if up {
 				e.Halt()
 			}
+			// WritePath.tla AbortedStart: a start that is cancelled while it replays (the operator's stop signal reaches the
+			// context of FracManager.Load) leaves the files as they are; the start after it serves everything. Every
+			// second restart of a history is preceded by one, cancelled after 0, 1 or 2 replayed meta blocks.
+			if h(*seed, c.N, i, 9)%2 == 0 {
+				e.StartCtx = env.PollCtx(int(h(*seed, c.N, i, 10) % 3))
+				if err := e.Reopen(); err == nil {
+					e.Halt() // fewer blocks than the cancellation point: the start went through
+				}
+				aborted.Add(1)
+			}
 			if err := e.Reopen(); err != nil {
 				fail(i, "store did not come up: "+err.Error())
 				return
@@ -324,5 +335,5 @@ func main() {
 	}
 	close(ch)
 	wg.Wait()
-	emit(map[string]any{"summary": true, "cases": n, "evals": evals.Load(), "nontrivial": nontriv.Load(), "corpora": n})
+	emit(map[string]any{"summary": true, "cases": n, "evals": evals.Load(), "nontrivial": nontriv.Load(), "corpora": n, "aborted_starts": aborted.Load()})
 }
